@@ -279,8 +279,8 @@ class StoreWorld:
         live = sorted(self.model)
         free = [n for n in self.names if n not in self.model]
         op = rng.choices(["new", "same", "change", "uidchange", "invalid", "cond-current", "cond-stale", "cond-absent", "uidconflict", "delete", "delete-missing",
-                          "delete-cond-current", "delete-cond-stale", "reopen", "revert", "uidchange-samelen"],
-                         [10, 3, 6, 3, 3, 3, 3, 1, 4, 5, 1, 2, 2, 1, 2, 3])[0]
+                          "delete-cond-current", "delete-cond-stale", "reopen", "revert", "uidchange-samelen", "samelen-change-then-stale-cond"],
+                         [10, 3, 6, 3, 3, 3, 3, 1, 4, 5, 1, 2, 2, 1, 2, 3, 3])[0]
         holders = self.holders()
         if op == "new" and free and len(live) < 7:
             n = rng.choice(free)
@@ -340,6 +340,28 @@ class StoreWorld:
                 return False
             self.res.count("store_same_length_uid_changes")
             self.do_import(op, n, body, newuid, self.model[n].token, expect={"C06": "ok", "C03": "ok"})
+        elif op == "samelen-change-then-stale-cond" and live:
+            # a change that keeps the byte length (and, in practice, the modification second), then a conditional
+            # operation carrying the validator of the version before it: that validator is stale
+            cands = [n for n in live if self.model[n].served is not None and self.model[n].token and self.model[n].token.encode() in self.model[n].served]
+            if not cands:
+                return False
+            n = rng.choice(cands)
+            m = self.model[n]
+            tok = m.token
+            tok2 = tok[:-1] + str((int(tok[-1]) + 1) % 10) if tok[-1].isdigit() else tok
+            body = m.served.replace(tok.encode(), tok2.encode())
+            if tok2 == tok or body == m.served or len(body) != len(m.served):
+                return False
+            before = m.etag
+            if self.do_import("samelen-change", n, body, m.uid, tok2, expect={"C06": "ok", "C03": "ok"}) != "ok":
+                return False
+            self.res.count("store_same_length_changes")
+            if rng.random() < 0.5:
+                b3, tok3 = self.body(n, m.uid)
+                self.do_import("cond-stale-after-samelen-change", n, b3, m.uid, tok3, replace_etag=before, expect={"C03": "InvalidETag"})
+            else:
+                self.do_delete("delete-cond-stale-after-samelen-change", n, etag=before, expect={"C03": "InvalidETag"})
         elif op == "invalid":
             n = rng.choice([x for x in self.names if not x.endswith(".txt")])
             if n.endswith(".ics"):
